@@ -22,11 +22,7 @@ L1_LINES = {
 
 
 def preamble(run, module, theorems):
-    try:
-        text, info, *_ = translate.generate()
-        translate.write_gentables(text)
-    except translate.TranslateError as e:
-        run.translator_error(str(e))
+    translate.regen_tables(run)
     run.hygiene()
     run.prove(module, theorems)
 
